@@ -133,6 +133,9 @@ def find_subseq(seq, subseq):
     """
     seq = np.asarray(seq).reshape(-1)
     subseq = np.asarray(subseq).reshape(-1)
+    if len(subseq) > len(seq):
+        # np.correlate would silently swap its arguments
+        return np.array([], dtype=int)
     target = np.dot(subseq, subseq)
     candidates = np.where(np.correlate(seq, subseq, mode="valid") == target)[0]
     # some of the candidates entries may be false positives; check:
